@@ -329,7 +329,7 @@ pub fn run() -> i32 {
         alpha.push(Op::Reg(2));
         alpha.push(Op::SetRaw(0, 1));
     }
-    let depth = 4;
+    let depth = if th { 5 } else { 4 };
     let evals = AtomicU64::new(0);
     let nontriv = AtomicU64::new(0);
     let maxparts = AtomicU64::new(0);
